@@ -222,6 +222,8 @@ macro_rules! stream_vtable {
 }
 stream_vtable!(s_u8, u8, Elem::U8, None, None, None, Layout::new::<u8>());
 stream_vtable!(s_u32, u32, Elem::U32, None, None, None, Layout::new::<u32>());
+// a stream of zero-sized items (the probe for the largest length one copy may have)
+stream_vtable!(s_unit, (), Elem::Unit, None, None, None, Layout::new::<()>());
 stream_vtable!(
     s_tracked,
     Tracked,
